@@ -8,6 +8,7 @@ import (
 	"fmt"
 	"io"
 	"net/netip"
+	"os"
 	"slices"
 	"strconv"
 	"strings"
@@ -207,6 +208,8 @@ func ErrClass(err error) string {
 		return "eof"
 	case err == io.ErrUnexpectedEOF:
 		return "unexpected-eof"
+	case errors.Is(err, os.ErrDeadlineExceeded):
+		return "timeout"
 	case errors.Is(err, ss2022.ErrZeroLengthChunk):
 		return "zero-length-chunk"
 	case errors.Is(err, ss2022.ErrFirstRead):
